@@ -39,6 +39,8 @@ def plan():
     for r in READ_ROUTES:
         reqs.append("%s.valid.0" % r)
         reqs.append("%s.revoked.0" % r)           # accepted: d1 is trusted in phase 0
+    for r in ("head", "status", "fetch", "scan"):
+        reqs.append("%s.rerevoked.0" % r)         # accepted: d3 was revoked once and trusted again
     for r in READ_ROUTES + WRITE_ROUTES:
         for c in BAD:
             reqs.append("%s.%s.0" % (r, c))
@@ -53,6 +55,8 @@ def plan():
     # phase 1: d1 revoked
     for r in READ_ROUTES + WRITE_ROUTES:
         reqs.append("%s.revoked.1" % r)
+    for r in READ_ROUTES + ["sync", "patch", "fdel"]:
+        reqs.append("%s.rerevoked.1" % r)         # refused: the second Revoke(d3) counts like the first
     for r in READ_ROUTES:
         reqs.append("%s.valid.1" % r)
     for r in ("sync", "patch", "fdel"):
@@ -69,6 +73,7 @@ def plan():
         reqs.append("%s.valid.2" % r)
         reqs.append("%s.revoked.2" % r)           # d1's revocation was cut off too: the log trusts it again
         reqs.append("%s.unknown.2" % r)
+        reqs.append("%s.rerevoked.2" % r)         # d3's events were cut off the log altogether
     return reqs
 
 
@@ -111,6 +116,7 @@ def accepted_by_design(case, kv):
     if c == "bodyswap": return False        # the property: the signature must cover exactly the request body
     if c == "revoked" and ph in ("0", "2"): return True      # phase 2: the Revoke event is no longer in the device log
     if c == "dropped" and ph in ("0", "1"): return True
+    if c == "rerevoked" and ph == "0": return True
     if c == "denyhdr": return acc in ("none", "allowA_never", "denyO")     # A2 is refused by allowA, denyA2, both
     return False
 
@@ -147,7 +153,7 @@ def impl_projection(obs):
 
 
 def nontrivial(case, obs):
-    return any(kv["cred"] in BAD + ["revoked"] and kv["route"] in WRITE_ROUTES for kv in parse(obs))
+    return any(kv["cred"] in BAD + ["revoked", "rerevoked"] and kv["route"] in WRITE_ROUTES for kv in parse(obs))
 
 
 def distinct_key(case):
